@@ -3,7 +3,7 @@
 Require Extraction.
 Require Import ExtrOcamlBasic.
 From Coq Require Import NArith List.
-From Mdns Require Import Res Bytes Utf8 Txt Rec Wire Intf IntfCache Responder ResponderSpec IntfDaemon.
+From Mdns Require Import Res Bytes Utf8 Txt Rec Wire Intf IntfCache Responder ResponderSpec IntfDaemon C18Spec.
 Extraction Language OCaml.
 Extraction "model.ml"
   Txt.encode_txt Bytes.lower Wire.decode
@@ -14,4 +14,5 @@ Extraction "model.ml"
   ResponderSpec.spec ResponderSpec.chk_C06 ResponderSpec.explained_by ResponderSpec.text_quirks
   ResponderSpec.code_quirks ResponderSpec.wf_input ResponderSpec.clean ResponderSpec.opt_packet_eqb
   IntfDaemon.initial_state IntfDaemon.iterate IntfDaemon.run
+  C18Spec.chk_C18 C18Spec.obs_ok C18Spec.packet_ok C18Spec.addrs_ok C18Spec.sel_states C18Spec.add_seen C18Spec.model_history
   N.eqb N.add N.mul N.land N.div N.modulo.
